@@ -65,7 +65,7 @@ type Case struct {
 	External bool     `json:"external,omitempty"`
 	Others   int      `json:"others,omitempty"` // C05: other databases opened in the same process first
 	Variant  int      `json:"variant,omitempty"`
-	Workers  int      `json:"workers,omitempty"` // worker pool size of the database (0 = 2); 1 makes cleanup jobs take the deferred path
+	Workers  int      `json:"pool_workers,omitempty"` // worker pool size of the database (0 = 2); 1 makes cleanup jobs take the deferred path
 	// RootStyle: how the root directories are spelled in the configuration: 0 canonical, 1 trailing
 	// slash, 2 doubled slash, 3 a "/./" segment (all name the same directories)
 	RootStyle int `json:"root_style,omitempty"`
